@@ -54,7 +54,7 @@ REGISTRY = {
     'C11': dict(module='contracts.C11', level='proof',
                 native=native_sweep('c11_ground.py', 'currents over real ground == ideal ground; medium split; far medium beyond every reflection point; sigma = 1e12 vs ideal ground (1..2 media, linear/circular boundary, radials)', 40, 1500),
                 undecided=['pattern converges to ideal ground as conductivity grows: the limit point is decided (the whole real-ground computation of E(theta), E(phi) with surface impedance 0, one medium at height 0 without radials, equals the ideal-ground computation on 1x1x2 arrays; and Z = 0 gives v = 1, h = 0); continuity in Z and the rate of convergence: native sweep only',
-                           'splitting a medium / adding a far medium: decided for the medium lookup (1..3 media, one direction, one pulse: shape-bounded) and as lemmas over its contract; the remaining statements of the real-ground branch (phase, height of the selected medium, summation) -- native sweep only'],
+                           'splitting a medium / adding a further medium: decided end to end (the whole real-ground computation of E(theta), E(phi), run over one medium and over two, coincides) on arrays of 1 direction x 1 pulse without radials, linear and circular boundary; the further-medium case assumes its boundary beyond the reflection distance b9 the code computes (b9 itself: reflection-point unit); more pulses / directions / a radial screen in these two clauses: native sweep only'],
                 trusted=['call graph over-approximated by method name and arity',
                          'np.argmin(bool array, axis=0) = first False; principal complex square root as an uninterpreted function with w*w = z, Re w >= 0; np.log uninterpreted',
                          'a vanishing Fresnel denominator (non-finite numpy result, no exception) ends the path: outside this contract']),
